@@ -3,5 +3,6 @@ EXTENDS Weighted
 CONSTANTS MaxLen
 MCValues == {-1, 0, 2}
 MCWeights == {0, 1, 3}
+MCWeightsWide == {0, 1, 4096}
 LenBound == \A s \in Slots : Len(data[s]) <= MaxLen
 =============================================================================
